@@ -17,6 +17,9 @@ import (
 //   uemethod b.Struct(&fn.S{}).ExportMethod("f") (+ .As(sig) for stubs)
 type lifeWorld struct {
 	kind  string
+	heldE map[string]mocker.ExportedMocker   // last handle a lookup returned, per builder+target
+	heldU map[string]mocker.UnExportedMocker // same for unexported kinds (no As)
+	via   string                             // "lookup" or "held" for the op being performed
 	b     map[string]*mocker.Builder
 	used  map[string]bool // placeholder handed to goom in this behaviour
 	calls int
@@ -38,6 +41,9 @@ func (w *lifeWorld) Begin() {
 	baseLogging()
 	w.b = map[string]*mocker.Builder{}
 	w.used = map[string]bool{}
+	w.heldE = map[string]mocker.ExportedMocker{}
+	w.heldU = map[string]mocker.UnExportedMocker{}
+	w.via = "lookup"
 }
 
 // symbol name of the target's code
@@ -70,6 +76,24 @@ func (w *lifeWorld) isMethod() bool { return w.kind == "method" || w.kind == "ue
 
 // exported handle (Apply / Return / When ...). For unexported kinds As(sig) converts.
 func (w *lifeWorld) handle(b, t string) mocker.ExportedMocker {
+	if w.kind == "uefunc" {
+		// the typed view is derived from the (kept or looked-up) unexported mocker: one underlying object
+		return w.ueHandle(b, t).As(func(int) int { return 0 })
+	}
+	if w.kind == "uemethod" {
+		return w.ueHandle(b, t).As(func(*fn.S, int) int { return 0 })
+	}
+	if w.via == "held" {
+		if h, ok := w.heldE[b+"/"+t]; ok {
+			return h
+		}
+	}
+	h := w.lookupHandle(b, t)
+	w.heldE[b+"/"+t] = h
+	return h
+}
+
+func (w *lifeWorld) lookupHandle(b, t string) mocker.ExportedMocker {
 	bl := w.builder(b)
 	switch w.kind {
 	case "func":
@@ -85,6 +109,17 @@ func (w *lifeWorld) handle(b, t string) mocker.ExportedMocker {
 
 // handle for Apply/Cancel/Origin on unexported kinds (no As)
 func (w *lifeWorld) ueHandle(b, t string) mocker.UnExportedMocker {
+	if w.via == "held" {
+		if h, ok := w.heldU[b+"/"+t]; ok {
+			return h
+		}
+	}
+	h := w.ueLookup(b, t)
+	w.heldU[b+"/"+t] = h
+	return h
+}
+
+func (w *lifeWorld) ueLookup(b, t string) mocker.UnExportedMocker {
 	bl := w.builder(b)
 	if w.kind == "uefunc" {
 		return bl.Pkg(fn.Pkg).ExportFunc(t)
@@ -145,6 +180,10 @@ func ints(v interface{}) []int {
 func (w *lifeWorld) Do(st Step) string {
 	return catch(func() {
 		b, t := st.Str("b"), st.Str("t")
+		w.via = "lookup"
+		if st.Str("via") == "held" {
+			w.via = "held"
+		}
 		switch st.Str("op") {
 		case "Apply":
 			if w.kind == "uefunc" || w.kind == "uemethod" {
